@@ -85,7 +85,13 @@ MaxLit == Lit(IMax(0), "9223372036854775807", "num")
 Faults == {Var("zz"), Bin("+", A_, Var("zz")), Bin("*", Var("zz"), A_), BigLit, Bin("-", BigLit, IntL(1)), Pre("-", BigLit),
            Bin("+", MaxLit, IntL(1)), Bin("-", Pre("-", MaxLit), IntL(2)), Bin("*", MaxLit, IntL(1)), Pre("-", Bin("-", Pre("-", MaxLit), IntL(1))),
            Bin("/", A_, IntL(0)), Bin("%", A_, IntL(0)), Bin("/", A_, Bin("-", B_, B_)), Bin("%", A_, Bin("-", B_, B_)),
-           Tern(BoolL(TRUE), A_, Var("zz")), Tern(BoolL(FALSE), A_, Var("zz")), Tern(Var("zz"), A_, B_)}
+           Tern(BoolL(TRUE), A_, Var("zz")), Tern(BoolL(FALSE), A_, Var("zz")), Tern(Var("zz"), A_, B_),
+           \* a failing element at a later position of an array literal, an object literal, an argument list - also when the
+           \* value built from the list does not show that element
+           Call(ArrL(<<A_, Var("zz")>>), "len", <<>>), Idx(ArrL(<<A_, Var("zz")>>), IntL(0)), Idx(ArrL(<<A_, B_, Bin("/", A_, IntL(0))>>), IntL(1)),
+           Call(ArrL(<<A_>>), "append", <<B_, Var("zz")>>), Call(Call(ArrL(<<A_>>), "append", <<B_, Var("zz")>>), "len", <<>>),
+           Call(BoolL(TRUE), "then", <<A_, Var("zz")>>), Call(BoolL(FALSE), "then", <<Var("zz"), B_>>),
+           Dot(ObjL(<<[key |-> "p", ex |-> A_], [key |-> "q", ex |-> Var("zz")]>>), "p"), Call(ArrL(<<ArrL(<<A_, Bin("%", A_, IntL(0))>>)>>), "len", <<>>)}
           \cup {Bin(o, A_, l) : o \in Ops, l \in {StrL("s"), FloatL(3, 1), BoolL(TRUE), NilL}}
           \cup {Bin(o, l, A_) : o \in Ops, l \in {StrL("s"), FloatL(3, 1), BoolL(TRUE), NilL}}
 
@@ -108,7 +114,8 @@ FlatLit == {<<T("num", x), T("op", o1), T("num", y), T("op", o2), T("num", z)>> 
 \* C09: absent loop clauses, non-assignment init, directive arguments of every kind: must return (output or error)
 RawAny == {"@for(;;)x@break@end", "@for(i = 0; i < 2;)x@break@end", "@for(i = 0; ; i++)x@break@end", "@for(; false;)x@end",
            "@for(; k11;)x@end", "@for(i = 0; i < 2; )x@breakIf(true)@end", "@for(k2; false; k2)x@end", "@for(1; false; 1)x@end",
-           "@for(i = 0; i < 1; i++)@end", "@for(k1; k1 < 3; k1++)[{{ k1 }}]{{ k1 = k1 + 1 }}@end", "@for(k1; k1 < 2; k1++){{ k1 = k1 + 1 }}.@end",
+           "@for(i = 0; i < 1; i++)@end", "@for(i = 0; ; i++)x@break@else e@end", "@for(;;)x@break@else e@end", "@for(; false;)x@else e@end", "@for(;; k1)x@break@else@end",
+           "@for(i = 0; ; )x@breakIf(true)@else e@end", "@each(v in k13)x@else@end", "@each(v in k13)@else e@end", "@for(k1; k1 < 3; k1++)[{{ k1 }}]{{ k1 = k1 + 1 }}@end", "@for(k1; k1 < 2; k1++){{ k1 = k1 + 1 }}.@end",
            "@for(1 + 1; k1 < 2; k1++){{ k1 = k1 + 1 }}<{{ k1 }}>@end", "@for(k9; k1 < 1; k9){{ k1 = k1 + 1 }}x@end", "@for(k1; k1 < 2; k1 = k1 + 1)x@end",
            "@for(k14; k1 < 1; k14){{ k1 = k1 + 1 }}@end", "@for(nil; k1 < 1; nil){{ k1 = k1 + 1 }}@end", "@for(k1; k1 < 1; ){{ k1 = k1 + 1 }}y@end", "@for(i = 0; i < 1; i = i + 1)x@end", "@for(i = k9; false; i++)x@end",
            "@each(v in k14)@end", "@each(v in k14)@break@end", "@if(k1)@end", "@if(k2)@else@end", "@if(k1)@elseif(k2)@end",
